@@ -204,6 +204,8 @@ def gen_case(seeds, params, index):
                 'failing_call': True}
     if r < 0.30:
         return gen_host_case(w, f, flavour, index)
+    if r < 0.34:
+        return gen_pair_case(w, f, flavour, index)
     if r < 0.48:
         return gen_lambda_result_case(w, f, flavour, index)
     targets = synth.collection_targets(flavour)
@@ -221,6 +223,7 @@ def gen_case(seeds, params, index):
     acc = p['accepts']
     if 'iter' in acc:
         kinds += [['endless'], ['endless'], ['endless_empties'], ['endless_empties'],
+                  ['endless_hinted', 0], ['endless_hinted', min(N, 2)],
                   ['finite', N + 1], ['finite', N],
                   ['finite', max(0, N - 1)], ['lib', 'sequence'],
                   ['lib', 'cycle'], ['lib', 'repeat'], ['lib', 'generate'],
@@ -242,6 +245,10 @@ def gen_case(seeds, params, index):
             'target': [e['name'], slot, ei], 'stream': stream, 'call': call,
             'wrap': w.choice(WRAPS), 'convert_output': w.random() < 0.8,
             'ctx_shape': w.choice(['plain'] * 8 + ['linked_bare', 'multi_bare'])}
+    if w.random() < 0.12:
+        # the host derives a per-request engine from the protected one with
+        # engine.copy(): the limits it does not restate stay in force
+        case['derive'] = w.choice(DERIVES)
     if stream[0] in ('endless', 'finite') and w.random() < 0.2:
         # the lazy sequence reaches the expression inside the input data
         # (a value of a dictionary, a member of a list) instead of a variable
@@ -255,6 +262,43 @@ def gen_case(seeds, params, index):
                                    ['endless_empties'], ['finite', N + 1]])
         case['call'] = synth.synth_call(w, flavour, (ei, slot), ['var', 's'])
     return case
+
+
+DERIVES = [{'yaql.convertSetsToLists': True}, {'yaql.convertTuplesToLists': False},
+           {'yaql.allowDelegates': True}, {'yaql.convertInputData': True},
+           {'yaql.iterableDicts': True}]
+PAIR_OPS = [('*equal', False), ('*not_equal', False),
+            ('#operator_<', False), ('#operator_>=', False),
+            ('#operator_in', False), ('#operator_+', False),
+            ('#operator_and', False), ('#operator_or', False),
+            ('#operator_*', False), ('#operator_-', False),
+            ('zip', True), ('concat', True), ('zipLongest', True),
+            ('isEqual', False), ('coalesce', False), ('max', False),
+            ('contains', True), ('indexOf', True), ('list', False),
+            ('append', True), ('union', True), ('intersect', True)]
+
+
+def gen_pair_case(w, f, flavour, index):
+    """Two lazy sequences that deliver the same items meet in one operator
+    or function."""
+    N = f.choice(NS)
+    name, method = PAIR_OPS[(index // 2) % len(PAIR_OPS)]
+    a, b = ['var', 's'], ['var', 's2']
+    shape = w.choice(['plain', 'plain', 'listed', 'left_list', 'swapped'])
+    if shape == 'listed':
+        a, b = ['list', [a]], ['list', [b]]
+    elif shape == 'left_list':
+        a = ['list', [['lit', 0], ['lit', 1], ['lit', 2]]]
+    elif shape == 'swapped':
+        a, b = b, a
+    call = {'name': name, 'method': method, 'args': [a, b], 'kwargs': {}}
+    return {'family': 'limit', 'flavour': flavour, 'N': N, 'Q': -1,
+            'target': ['pair:' + name, ['pos', 0], -1],
+            'stream': f.choice([['endless'], ['endless'], ['finite', N + 1],
+                                ['finite', 4 * N + 8]]),
+            'stream2': True, 'call': call,
+            'wrap': w.choice(['none', 'none', 'len', 'first', 'toList']),
+            'convert_output': True}
 
 
 ARG_NESTS = ['list', 'listlist', 'list2', 'dictvalues', 'listlast']
@@ -454,22 +498,27 @@ def wrap_spec(wrap, call):
     raise core.HarnessError(wrap)
 
 
-def make_stream(stream, N, registry):
+def make_stream(stream, N, registry, name='s'):
     from yaql.language import utils
     k = stream[0]
     budget = 50 * (N + 1)
     if k == 'endless':
-        s = seams.SimSource('s', lambda i: i, None, budget=budget)
+        s = seams.SimSource(name, lambda i: i, None, budget=budget)
         registry.append(s)
         return s
     if k == 'endless_empties':
         # an endless stream whose items are empty iterators: flattening it
         # produces no output at all
-        s = seams.SimSource('s', lambda i: iter(()), None, budget=budget)
+        s = seams.SimSource(name, lambda i: iter(()), None, budget=budget)
+        registry.append(s)
+        return s
+    if k == 'endless_hinted':
+        s = seams.HintedSource(name, lambda i: i, None, budget=budget)
+        s.hint = stream[1]
         registry.append(s)
         return s
     if k == 'finite':
-        s = seams.SimSource('s', lambda i: i, stream[1], budget=budget)
+        s = seams.SimSource(name, lambda i: i, stream[1], budget=budget)
         registry.append(s)
         return s
     if k == 'sized':
@@ -668,7 +717,7 @@ def exec_limit(case, stats):
         call = _nest_arg(call, case['arg_nest'])
     spec = wrap_spec(case['wrap'], call)
     try:
-        st = synth.build_statement(flavour, spec, opts)
+        st = synth.build_statement(flavour, spec, opts, case.get('derive'))
     except Exception:
         stats.inc('status.unbuildable')
         return []
@@ -701,6 +750,9 @@ def exec_limit(case, stats):
             data = _data_around(s, shape_d)
         else:
             ctx['s'] = s
+    if case.get('stream2'):
+        # a second stream that delivers the same items as the first
+        ctx['s2'] = make_stream(case['stream'], N, registry, 's2')
     if case.get('host_decl'):
         _register_host(ctx, case['host_decl'], case.get('host_lazy'))
     _mon['Q'] = Q
@@ -742,7 +794,8 @@ def exec_limit(case, stats):
                                     'from a lazy sequence handed to a library '
                                     'function', 'detail': detail})
             break
-    endless = case['stream'][0] in ('endless', 'endless_empties', 'lib') or any(
+    endless = case['stream'][0] in ('endless', 'endless_empties',
+                                    'endless_hinted', 'lib') or any(
         x.length is None or x.length > N for x in registry)
     if kind in ('budget', 'memoryerror') and not viols and not endless:
         # bounded input, step budget exhausted: work that is legitimately
@@ -784,6 +837,10 @@ def exec_limit(case, stats):
         stats.inc('fault.stream_inside_data_' + shape_d)
     if case.get('arg_nest'):
         stats.inc('fault.stream_nested_in_argument_' + case['arg_nest'])
+    if case.get('derive'):
+        stats.inc('fault.engine_derived_with_other_options')
+    if case.get('stream2'):
+        stats.inc('fault.two_equal_streams')
     if case.get('host_decl'):
         stats.inc('host_decl.' + case['host_decl'])
     if any(p == N + 1 for _, p in pulls):
